@@ -229,6 +229,7 @@ PROPS = {
         "units": [
             {"pkg": "./c13", "run": "TestC13Sequential|TestC13SelfRedirect|TestC13FromServiceTags", "shards": 4, "shards_thorough": 16, "timeout": 900},
             {"pkg": "./c13", "run": "TestC13Concurrent", "race": True, "shards": 2, "shards_thorough": 4, "timeout": 900},
+            {"pkg": "./mainpkg", "run": "^TestC13", "shards": 2, "shards_thorough": 4, "timeout": 900},
         ],
         "rule": ("rapid-generated redirect routes over the documented template forms (https://h$path, https://$host$path, http://h/$path, http://h/bbb$path, http://h/bbb/$path, fixed targets, $host with fixed path; "
                  "with/without own query) under host-less, host-specific, *:80 and *.x routes, codes 300-399, strip/prepend combinations; requests parsed by net/http from raw bytes with percent-encoded octets "
@@ -236,7 +237,7 @@ PROPS = {
                  "strip(raw request path), request query carried when the target has none; for fixed targets only scheme/host/path asserted), configured status, zero upstream hits; self-redirect (same "
                  "X-Forwarded-Proto scheme, host, path) answered by the next matching host; under -race 2-32 goroutines with distinct paths/hosts on one route each get their own Location. "
                  "Non-trivial = $path template and (encoded octet in the request path or strip/prepend); self-redirect cases with a fallback host; concurrent workloads. From-tags form: the redirect route is one urlprefix- tag (redirect=<code>,<url> plus its strip/prepend) of a Consul registration whose 0-3 sibling tags carry options of their own, in any order; "
-                 "the commands fabio derives are loaded and the Location must follow the redirect tag's own options only; routes shorter than their strip path with the stripped piece at the front, further down or absent."),
+                 "the commands fabio derives are loaded and the Location must follow the redirect tag's own options only; routes shorter than their strip path with the stripped piece at the front, further down or absent. Main-wiring form (mainpkg): redirect routes (codes 300-399) and forwarded requests through a fabio that main.go wired with metrics.target=prometheus (config.Load, metrics.Initialize, startServers): status and Location reach the client."),
         "technique": "rapid property tests against a string-level Location model; concurrent per-goroutine oracle under the race detector",
         "level_text": "Redirect responses produced by HTTPProxy + Table.Lookup for generated routes and requests are compared with a model of the documented template semantics, sequentially and under concurrent load with the race detector. Exploration only.",
         "level_note": "Request paths are ASCII with percent-encoded octets (raw non-ASCII bytes are re-encoded by net/url and are not 'the client's percent-encoding'). When a self-redirect has no other matching host the statement does not say what answers; only 'no upstream contacted' is asserted there.",
@@ -345,7 +346,8 @@ PROPS = {
     "C20": {
         "units": [
             {"pkg": "./c20", "run": "TestC20LogLine|TestC20EachField|TestC20Uint16|TestC20I32toa|TestC20UUID|TestC20STS|TestC20ProxyLogging|TestC20ProxyFinalStatus|TestC20LogTargetFaults", "shards": 4, "shards_thorough": 16, "timeout": 600},
-            {"pkg": "./c20", "run": "TestC20ConcurrentLogging", "race": True, "shards": 2, "shards_thorough": 4, "timeout": 600},
+            {"pkg": "./mainpkg", "run": "^TestC20", "shards": 2, "shards_thorough": 4, "timeout": 900},
+            {"pkg": "./c20", "run": "TestC20ConcurrentLogging|TestC20ConcurrentUUID", "race": True, "shards": 2, "shards_thorough": 4, "timeout": 600},
         ],
         "fuzz": [],
         "rule": ("rapid-generated (format, event) pairs: format = random sequence over logger.Fields, $header.<Name> and literal text "
